@@ -20,6 +20,7 @@ TRIGGERS = {
     "backtick_whole_path": lambda m: bool(m.get("backtick_whole_path")),
     "separate_bases": lambda m: bool(m.get("separate_bases")),
     "seq_as_scalar": lambda m: bool(m.get("seq_as_scalar")),
+    "flat_index_equals_index": lambda m: bool(m.get("flat_index_equals_index")),
     "neg_step_slice": lambda m: bool(m.get("neg_step")),
 }
 
